@@ -130,10 +130,9 @@ func (g *gen) leaf(kind string) *xp.E {
 			case "list":
 				k := 1 + g.pick(4, "listlen")
 				for i := 0; i < k; i++ {
+					// (an entry may be the empty string: it is a node like any other - the set is not empty, whatever
+					// the string converts to)
 					v := g.strValue()
-					if v == "" {
-						v = "e"
-					}
 					lv.Vals = append(lv.Vals, v)
 				}
 			}
